@@ -47,7 +47,7 @@ Shapes ==
   {[kind |-> "so", rsize |-> 8, ncode |-> 5, ndata |-> 0, ram |-> <<>>, npass |-> nso, high |-> FALSE, passfirst |-> FALSE, cpuin |-> FALSE, what |-> ToString(np)] :
       np \in 1 .. 3, nso \in 1 .. 3} \cup
   {[kind |-> "misfit", rsize |-> rs, ncode |-> 5, ndata |-> 0, ram |-> <<>>, npass |-> 0, high |-> FALSE, passfirst |-> FALSE, cpuin |-> FALSE, what |-> w] :
-      rs \in {8, 16}, w \in {"rset-wide", "mov-wide", "rset-wide-hex", "rset-wide-bin", "mov-max"}}
+      rs \in {8, 16}, w \in {"rset-wide", "mov-wide", "rset-wide-hex", "rset-wide-bin", "mov-max", "j-beyond-rom", "jz-beyond-rom", "j-last-word"}}
 
 \* what the source demands of the emitted machine
 MinRom(s) == s.ncode + s.ndata
